@@ -368,3 +368,8 @@ def register(p):
 
 def fail(view, h, name, what, cls, also=()):
     return {"what": what, "class": cls, "n": view.n_of(h, name), "also": list(also), "input": describe_handle(view.full, h)}
+
+
+import props_a  # noqa: E402,F401
+import props_b  # noqa: E402,F401
+import props_c  # noqa: E402,F401
